@@ -12,6 +12,7 @@ Oracles: the statement's invariants I1-I6 after every completed operation."""
 import copy
 import gc
 import json
+import os
 import signal
 
 from holsim.log import EventLog, Counters
@@ -24,9 +25,9 @@ HASHSEED_INDEPENDENT = False
 _VQ = ['copy_shares_subproof', 'decr_id_off_by_one', 'incr_id_ignores_depth', 'find_goal_ignores_hyps',
        'state_copy_shares_proof']
 TIERS = {
-    'quick': dict(fork=True, worlds=16, runs=6, batch=1, det_runs=2, soft_timeout=420,
-                  variants=_VQ[:3], variant_budget=12, min_tests=30, extra_workers=3),
-    'thorough': dict(fork=True, worlds=64, runs=60, batch=1, det_runs=4, soft_timeout=900,
+    'quick': dict(fork=True, worlds=16, runs=5, batch=1, det_runs=2, soft_timeout=600,
+                  variants=['copy_shares_subproof', 'state_copy_shares_proof'], variant_budget=10, min_tests=30, extra_workers=2),
+    'thorough': dict(fork=True, worlds=64, runs=25, batch=1, det_runs=4, soft_timeout=900,
                      variants=_VQ + ['replace_id_keeps_line', 'export_drops_prevs', 'apply_tactic_no_trivial_check'],
                      variant_budget=40, min_tests=60),
 }
@@ -47,13 +48,14 @@ def warmup():
             __import__(m)
         except Exception:
             pass
-    for th in core.THOROUGH_THEORIES:
+    ths = core.QUICK_THEORIES if os.environ.get('HOLSIM_TIER') == 'quick' else core.THOROUGH_THEORIES
+    for th in ths:
         try:
             basic.load_theory(th)
         except Exception:
             pass
     core.install_solver_seam()
-    core.load_corpus(core.THOROUGH_THEORIES)
+    core.load_corpus(ths)
     try:
         from checks import c13_web
         c13_web.load_ide()      # real handlers of app/ide.py behind the stub transport
